@@ -188,6 +188,7 @@ struct World {
     ++opElemThrowPoints;
     if (faultKind == F_ELEM && faultCountdown >= 0 && faultCountdown-- == 0) {
       faultFired = true; faultFiredKind = F_ELEM; ++faultsFiredElem;
+      ctxProps |= P(9);  // from here on the operation is being judged on its exception safety (also seen by the crash handlers)
       throw SimFault();
     }
   }
@@ -203,6 +204,7 @@ struct World {
     ++opAllocThrowPoints;
     if (faultKind == F_ALLOC && faultCountdown >= 0 && faultCountdown-- == 0) {
       faultFired = true; faultFiredKind = F_ALLOC; ++faultsFiredAlloc;
+      ctxProps |= P(9);
       return true;
     }
     return false;
